@@ -77,10 +77,17 @@ def run(ctx):
         return c.finish(ctx)
     tls_impl = impl[n_plain:]
     ops, impl = ops[:n_plain], impl[:n_plain]
-    model = c.run_driver(ctx, "model", ops)
+    model_regen = c.run_driver(ctx, "model", ops)
+    # verdicts come from the judge binary (route table and masks of the validated tree); the model built on the
+    # regenerated facts must agree with it, else the route/gate facts of this tree have moved
+    model = c.run_driver(ctx, "judge", ops)
+    moved = [(o, a, b) for o, a, b in zip(ops, model_regen, model) if a != b]
+    if moved:
+        ctx.broken.append("route/gate facts of this tree differ from the validated snapshot: %d ops decided differently, first: op=%r regenerated=%r snapshot=%r" % (
+            len(moved), moved[0][0], moved[0][1], moved[0][2]))
     hist = collections.Counter()
     panics = set()
-    tls_model = c.run_driver(ctx, "model", tls_model_ops) if tls_model_ops else []
+    tls_model = c.run_driver(ctx, "judge", tls_model_ops) if tls_model_ops else []
     for o, a, b in zip(tls_ops, tls_impl, tls_model):
         f = a.split()
         if len(f) != 2 or not f[0].isdigit():
